@@ -3,7 +3,8 @@ from checks.common import Build, Job
 
 BUILDS = [Build("lfht", "harness/c05_lfht.c", flavor="spec", cds=True),
           Build("lfht_memb", "harness/c05_lfht.c", flavor="memb", cds=True),
-          Build("lfht_bp", "harness/c05_lfht.c", flavor="bp", cds=True)]
+          Build("lfht_bp", "harness/c05_lfht.c", flavor="bp", cds=True),
+          Build("lfht_qsbr", "harness/c05_lfht.c", flavor="qsbr", cds=True)]
 REAL = (("lfht_memb", {"VRT_MEMBARRIER": 2}), ("lfht_bp", {"VRT_MEMBARRIER": 0}))
 
 # op bytes of the program interpreter in harness/c05_lfht.c
